@@ -64,11 +64,11 @@ func (p *sessProxy) SetId(i uint32) { p.real.SetId(i) }
 func (p *sessProxy) Close()         { p.real.Close() }
 func (p *sessProxy) IsClosed() bool { return p.real.IsClosed() }
 func (p *sessProxy) Push(route string, v interface{}) error {
-	atomic.AddInt32(&p.k.pushCalls, 1)
 	err := p.real.Push(route, v)
 	if err == nil && atomic.LoadInt32(&p.k.closeCb) == 0 {
 		atomic.AddInt32(&p.k.expW, 1)
 	}
+	atomic.AddInt32(&p.k.pushCalls, 1) // pushes that RETURNED (a parked push has not)
 	return err
 }
 func (p *sessProxy) ResponseMID(mid uint, v interface{}, e error) error {
@@ -108,6 +108,8 @@ type hconn struct {
 	rExited                  bool  // the read goroutine is known to be gone
 	clientClosed             bool
 
+	hbJob, floodJob *async // a heartbeat tick / a flood of pushes issued on its own goroutine
+
 	tcp    bool     // OTcp scenario: real socket, no in-memory connection, nothing held
 	client net.Conn // its client end
 	tcpEOF int32    // the client end saw the server close
@@ -126,6 +128,41 @@ type world struct {
 	menc   *message.MessagesEncoder
 	tcpNew chan *hconn
 	base   census // session goroutines leaked by EARLIER (broken) cases: not ours
+
+	gateCh  chan struct{} // non-nil and open: OnSessionCreate of accepted connections waits here
+	gateMu  sync.Mutex
+	clients []net.Conn // client ends of the TCP connections of this case
+	entered int32      // OnSessionCreate calls that arrived at the gate
+	nextTok int64
+
+	asyncs   []*async // everything started on its own goroutine because it may park in a push
+	ownerJob *async   // a PushMsg of the owning service that has not returned yet
+}
+
+// async: something that calls Push and may therefore park on a full send queue; the harness
+// waits until it has returned or is parked (census: goroutine in pushToSend, "chan send")
+type async struct{ done int32 }
+
+func (a *async) busy() bool { return a != nil && atomic.LoadInt32(&a.done) == 0 }
+
+func (w *world) spawn(f func()) *async {
+	a := &async{}
+	w.asyncs = append(w.asyncs, a)
+	go func() {
+		f()
+		atomic.StoreInt32(&a.done, 1)
+	}()
+	return a
+}
+
+func (w *world) pendingAsync() int {
+	n := 0
+	for _, a := range w.asyncs {
+		if a.busy() {
+			n++
+		}
+	}
+	return n
 }
 
 // ---- recording ISessionsHandler ----
@@ -181,7 +218,7 @@ func newWorld() *world {
 // ---- goroutine census: how many goroutines are inside the session's three loops ----
 var stackBuf = make([]byte, 1<<20)
 
-type census struct{ read, write, hb, starting int }
+type census struct{ read, write, hb, starting, sendBlocked int }
 
 func (c census) total() int { return c.read + c.write + c.hb + c.starting }
 
@@ -195,7 +232,8 @@ func pos(n int) int {
 // census of THIS case: goroutines that earlier cases could not get rid of are not counted
 func (w *world) census() census {
 	c := takeCensus()
-	return census{pos(c.read - w.base.read), pos(c.write - w.base.write), pos(c.hb - w.base.hb), c.starting}
+	return census{pos(c.read - w.base.read), pos(c.write - w.base.write), pos(c.hb - w.base.hb), c.starting,
+		pos(c.sendBlocked - w.base.sendBlocked)}
 }
 
 func takeCensus() census {
@@ -213,6 +251,12 @@ func takeCensus() census {
 			// `go s.read()` etc. not yet running (compiler wrapper frame): census not final
 			c.starting++
 			continue
+		}
+		if strings.Contains(g, "session.(*ClientSession).pushToSend") {
+			// a sender parked on the full send queue: "goroutine N [chan send...]:"
+			if nl := strings.IndexByte(g, '\n'); nl > 0 && strings.Contains(g[:nl], "[chan send") {
+				c.sendBlocked++
+			}
 		}
 		if strings.Contains(g, "session.(*ClientSession).read(") {
 			c.read++
@@ -232,7 +276,7 @@ func (w *world) stable() bool {
 	parked, unresolved := 0, 0
 	for _, t := range w.order {
 		k := w.conns[t]
-		if k.rExited || k.tcp {
+		if k == nil || k.rExited || k.tcp {
 			continue
 		}
 		k.sc.mu.Lock()
@@ -251,7 +295,7 @@ func (w *world) stable() bool {
 		}
 		for _, t := range w.order {
 			k := w.conns[t]
-			if k.rExited || k.tcp {
+			if k == nil || k.rExited || k.tcp {
 				continue
 			}
 			k.sc.mu.Lock()
@@ -263,14 +307,23 @@ func (w *world) stable() bool {
 		}
 		return false // re-evaluate once more with the new knowledge
 	}
+	if n := w.pendingAsync(); n > 0 {
+		// every pusher has returned or is parked on a full queue
+		if w.census().sendBlocked != n || w.pendingAsync() != n {
+			return false
+		}
+	}
 	for _, t := range w.order {
 		k := w.conns[t]
-		if atomic.LoadInt32(&k.closeCb) > 0 || k.tcp {
+		if k == nil || atomic.LoadInt32(&k.closeCb) > 0 || k.tcp {
 			continue
 		}
 		k.sc.mu.Lock()
-		seen, failed := k.sc.wHb+k.sc.wPush, k.sc.wFailed
+		seen, failed, parked := k.sc.wHb+k.sc.wPush, k.sc.wFailed, k.sc.wBlocked
 		k.sc.mu.Unlock()
+		if parked {
+			continue // the write loop sits in a Write the client does not take
+		}
 		if seen < int(atomic.LoadInt32(&k.expW)) {
 			return false // the write loop still has work queued
 		}
@@ -382,11 +435,27 @@ func (w *world) idOf(tok int64) (uint32, bool) {
 }
 
 func (w *world) heartbeat(k *hconn) {
-	before := k.sess.GetStatus()
-	k.sess.VerifHeartbeatTick()
-	if before == session.StatusWorking && atomic.LoadInt32(&k.closeCb) == 0 {
-		atomic.AddInt32(&k.expW, 1)
+	if k.hbJob.busy() {
+		return // the previous tick is still parked in its send
 	}
+	k.hbJob = w.spawn(func() {
+		before := k.sess.GetStatus()
+		k.sess.VerifHeartbeatTick()
+		if before == session.StatusWorking && atomic.LoadInt32(&k.closeCb) == 0 {
+			atomic.AddInt32(&k.expW, 1)
+		}
+	})
+}
+
+func (w *world) flood(k *hconn, n int64) {
+	if k.floodJob.busy() || n <= 0 {
+		return
+	}
+	k.floodJob = w.spawn(func() {
+		for i := int64(0); i < n; i++ {
+			k.proxy.Push("push.r", []byte("p"))
+		}
+	})
 }
 
 func (w *world) frontOne() bool {
@@ -414,7 +483,7 @@ func (w *world) simple(o hx.T) {
 			k.sc.clientClose()
 		}
 	case "OKick":
-		if id, ok := w.idOf(o.Int(0)); ok {
+		if id, ok := w.idOf(o.Int(0)); ok && !w.ownerJob.busy() {
 			w.cs.Kick(id)
 		}
 	case "OCloseExt":
@@ -427,9 +496,11 @@ func (w *world) simple(o hx.T) {
 		}
 	case "OWfail":
 		if k, ok := w.conns[o.Int(0)]; ok {
-			k.sc.mu.Lock()
-			k.sc.wfail = true
-			k.sc.mu.Unlock()
+			k.sc.setWfail()
+		}
+	case "OWstall":
+		if k, ok := w.conns[o.Int(0)]; ok {
+			k.sc.setWstall()
 		}
 	default:
 		panic("c05: op not allowed here: " + o.Name)
@@ -463,14 +534,29 @@ func (w *world) exec(o hx.T) {
 				ids = append(ids, id)
 			}
 		}
-		w.cs.PushMsg(&msgs.PushMsg{Ids: ids, Route: "push.r", Data: []byte("p")})
+		if !w.ownerJob.busy() {
+			// the owning service's goroutine: it may park inside session.Push
+			m := &msgs.PushMsg{Ids: ids, Route: "push.r", Data: []byte("p")}
+			w.ownerJob = w.spawn(func() { w.cs.PushMsg(m) })
+		}
 	case "OFront":
-		w.frontOne()
+		if !w.ownerJob.busy() {
+			w.frontOne()
+		}
 	case "ODrain":
-		for w.frontOne() {
+		for !w.ownerJob.busy() && w.frontOne() {
 		}
 	case "OSetNext":
-		w.cs.VerifSetNextId(uint32(o.Int(0)))
+		if !w.ownerJob.busy() {
+			w.cs.VerifSetNextId(uint32(o.Int(0)))
+		}
+	case "OFlood":
+		if k, ok := w.conns[o.Int(0)]; ok {
+			w.flood(k, o.Int(1))
+		}
+	case "OBurst":
+		w.burst(o.Int(0))
+		return
 	case "ORealTicker":
 		w.realTicker(o.Int(0))
 		return
@@ -538,13 +624,16 @@ func (w *world) realTicker(k int64) {
 
 // finish measures the end state, then tears everything down (not observed) and reports
 // whether the goroutine count came back to the baseline.
-func (w *world) observe() (fins []any, alive int64) {
+func (w *world) observe() (fins []any, alive, blocked int64) {
 	// closed sessions: write loop and heartbeat must go away, the reader too unless the
 	// harness itself still holds it in the decoder
 	want := func() int {
 		n := 0
 		for _, t := range w.order {
 			k := w.conns[t]
+			if k == nil {
+				continue
+			}
 			if atomic.LoadInt32(&k.closeCb) > 0 {
 				if !k.tcp && k.dec.isHeld() {
 					n++
@@ -564,8 +653,14 @@ func (w *world) observe() (fins []any, alive int64) {
 		last = w.census()
 	}
 	alive = int64(last.total())
+	blocked = int64(last.sendBlocked)
 	for _, t := range w.order {
 		k := w.conns[t]
+		if k == nil {
+			// dialled, accepted by the kernel, never became a session
+			fins = append(fins, hx.C("CFin", t, int64(0), int64(0), int64(0), int64(0), false))
+			continue
+		}
 		if k.tcp {
 			// conn.Close() calls cannot be counted on a real socket: what IS measured is that
 			// the peer saw the connection close
@@ -583,11 +678,19 @@ func (w *world) observe() (fins []any, alive int64) {
 }
 
 func (w *world) teardown() (clean bool) {
+	if w.gateCh != nil {
+		w.openGate()
+	}
+	for _, cl := range w.clients {
+		cl.Close()
+	}
 	for _, t := range w.order {
 		k := w.conns[t]
+		if k == nil {
+			continue
+		}
 		k.sess.Close()
 		if k.tcp {
-			k.client.Close()
 			tcpImps.Delete(pi.IClientSession(k.sess))
 			continue
 		}
@@ -596,13 +699,13 @@ func (w *world) teardown() (clean bool) {
 	deadline := time.Now().Add(teardownWait)
 	for {
 		for _, t := range w.order {
-			if !w.conns[t].tcp {
-				w.conns[t].dec.free()
+			if k := w.conns[t]; k != nil && !k.tcp {
+				k.dec.free()
 			}
 		}
-		for w.frontOne() {
+		for !w.ownerJob.busy() && w.frontOne() {
 		}
-		if w.census().total() == 0 {
+		if c := w.census(); c.total() == 0 && c.sendBlocked == 0 && w.pendingAsync() == 0 {
 			clean = true
 			break
 		}
@@ -632,7 +735,7 @@ func Exec(ops []hx.T) (obs any, nontrivial bool, hung bool) {
 		}
 		w.exec(o)
 	}
-	fins, alive := w.observe()
+	fins, alive, blocked := w.observe()
 	hlog := append([]any{}, w.hlog...)
 	hang := w.hang
 	w.hang = false
@@ -651,5 +754,5 @@ func Exec(ops []hx.T) (obs any, nontrivial bool, hung bool) {
 			nontrivial = true
 		}
 	}
-	return hx.C("Obs", hlog, fins, alive, hang, leak), nontrivial, hang || leak
+	return hx.C("Obs", hlog, fins, alive, blocked, hang, leak), nontrivial, hang || leak
 }
